@@ -35,7 +35,8 @@ def excPyName : Exc → String
   | .boom => "Boom" | .keyboardInterrupt => "KeyboardInterrupt"
   | .ret => "Ret" | .brk => "Brk" | .diverge => "Diverge"
 
-inductive Target | render | validate | write | resolve
+/-- `cwrite`: the `write("\n")` of `draw`'s own clean-up (`finally`) -/
+inductive Target | render | validate | write | resolve | cwrite
 deriving DecidableEq, Repr
 
 inductive Owner | lib | caller
@@ -119,6 +120,10 @@ inductive Act
   | validate
   /-- `padding.resolve(terminal_size)` of a relative `AlignedPadding` -/
   | resolvePad
+  /-- `output.write("\n")` in the `finally` of `draw` -/
+  | writeNl
+  /-- `RenderArgs(type(renderable), render_args)`: conversion of `None` / ancestor-class arguments -/
+  | convertArgs
   /-- `renderable._render_(render_data, render_args)` -/
   | render (d : Nat)
   /-- `output.write(…)` -/
@@ -147,6 +152,8 @@ def apply : Act → World → World
       (.create w.nObjs)
   | .validate, w => w
   | .resolvePad, w => w
+  | .writeNl, w => w
+  | .convertArgs, w => w
   | .render d, w =>
     (w.setObj d fun o =>
       { o with renders := o.renders + 1, usedAfter := o.usedAfter + (if o.finalized then 1 else 0) }).log
@@ -175,6 +182,7 @@ def target : Act → Option Target
   | .render _ => some .render
   | .validate => some .validate
   | .resolvePad => some .resolve
+  | .writeNl => some .cwrite
   | .write => some .write
   | _ => none
 
@@ -188,6 +196,7 @@ def inj : Target → Exc → Prop
   | .validate, e => e = .sizeError
   | .write, e => e = .boom ∨ e = .keyboardInterrupt
   | .resolve, e => e = .boom
+  | .cwrite, e => e = .boom ∨ e = .keyboardInterrupt
 
 abbrev P := Prog Act Exc World
 
@@ -257,13 +266,21 @@ def iterNewP (loops : Int) (cache : CacheArg) : P :=
               Generated.initRenderAllowScrollDefault false fun _ => .done)
         (.do (.newIter d true (loopOf w.fc loops) (infOf w.fc loops) (cachedOf w.fc cache)))
 
+/-- the `render_args` handed to `_from_render_data_`: `None`, arguments already associated with the
+    renderable's own class (what `draw` passes to `_animate_`), or with an ancestor class -/
+inductive ArgsKind | none | own | ancestor
+deriving DecidableEq, Repr
+
 /-- `RenderIterator._from_render_data_` -/
-def fromDataP (d : Nat) (finalize : Bool) (loops : Int) (cache : CacheArg) : P :=
+def fromDataP (d : Nat) (finalize : Bool) (loops : Int) (cache : CacheArg) (args : ArgsKind := .own) : P :=
   .seq (initChecks loops cache) <|
     .get fun w =>
       if (w.objs d).finalized then .raise .valueError
       else if !(w.objs d).iteration then .raise .valueError
-      else .do (.newIter d finalize (loopOf w.fc loops) (infOf w.fc loops) (cachedOf w.fc cache))
+      else
+        -- `if not (render_args and render_args.render_cls is type(renderable)): render_args = RenderArgs(…)`
+        .seq (if args = .own then .done else .do .convertArgs)
+          (.do (.newIter d finalize (loopOf w.fc loops) (infOf w.fc loops) (cachedOf w.fc cache)))
 
 /-- `RenderIterator.close()` -/
 def closeP (i : Nat) : P :=
@@ -414,7 +431,7 @@ def drawP (animate checkSize : Bool) (loops : Int) (cache : CacheArg) (bound : N
          else
           .seq (.do (.render d))
             (.tryExcept (.do .write) (· == .keyboardInterrupt) fun e => .raise e))
-        (.act .write (finalizeP d .lib))
+        (.act .writeNl (finalizeP d .lib))
 
 /-! ## histories -/
 
@@ -426,7 +443,7 @@ inductive Op
   | iterNew (loops : Int) (cache : CacheArg)
   /-- the caller: `data = renderable._get_render_data_(iteration=…)` -/
   | mkData (iteration : Bool)
-  | fromData (d : Nat) (finalize : Bool) (loops : Int) (cache : CacheArg)
+  | fromData (d : Nat) (finalize : Bool) (loops : Int) (cache : CacheArg) (args : ArgsKind)
   | next (i : Nat)
   | close (i : Nat)
   | seek (i : Nat) (n : Nat)
@@ -451,7 +468,7 @@ def reachable (w : World) (d : Nat) : Bool := (w.objs d).held || attached w d
     hands out nor finalizes data that an open iterator is using -/
 def valid (w : World) : Op → Bool
   | .next i | .close i | .seek i _ | .bump i | .dropIter i => decide (i < w.nIters) && !(w.iters i).dropped
-  | .fromData d _ _ _ => decide (d < w.nObjs) && (w.objs d).held && !attached w d
+  | .fromData d _ _ _ _ => decide (d < w.nObjs) && (w.objs d).held && !attached w d
   | .callerFinalize d =>
     decide (d < w.nObjs) && (w.objs d).held && !attached w d && decide ((w.objs d).owner = .caller)
   | .callerDrop d => decide (d < w.nObjs) && (w.objs d).held
@@ -463,7 +480,7 @@ def opProg : Op → P
   | .draw a cs l c b => drawP a cs l c b
   | .iterNew l c => iterNewP l c
   | .mkData it => .do (.newData .caller it true)
-  | .fromData d fin l c => fromDataP d fin l c
+  | .fromData d fin l c a => fromDataP d fin l c a
   | .next i => nextP i
   | .close i => closeP i
   | .seek i n => seekP i n
